@@ -237,28 +237,67 @@ def dataOf : Item → List Batch
 /-- result batch of a unary call returning `v` (one row; identity = the value) -/
 def resultBatch (v : Nat) : Batch := ⟨v, 1, []⟩
 
+/-- request side of a unary call: `_read_request` resolves a pointer request and releases it in its `finally`;
+returns what the method was handed and the world afterwards -/
+def reqPhase {A : Allocator} (cfg : Cfg) (w : World A) (req : Option Batch) : List Batch × World A :=
+  match req with
+  | none => ([], w)
+  | some rb =>
+      let q := put cfg w rb
+      let r := recv q.2 q.1
+      (dataOf r.1, if Gen.C29.requestFinallyReleases then q.2.free r.2 else q.2)
+
+/-- response side: `_write_result_batch`, then `_read_unary_response` (release in its `finally`) -/
+def respPhase {A : Allocator} (cfg : Cfg) (w : World A) (logs : List Log) (v : Nat) : List Ev × World A :=
+  let q := put cfg w (resultBatch v)
+  match readW q.2 (inlLogs logs ++ [q.1]) with
+  | (evs, .gotData _ h _) => (evs.map asValue, if Gen.C29.unaryFinallyReleases then q.2.free h else q.2)
+  | (evs, _) => (evs, q.2)
+
 /-- `_RpcProxy` unary caller + `serve_one` / `_serve_unary` -/
 def callOp {A : Allocator} (cfg : Cfg) (c : Conn A) (logs : List Log) (out : Except Exn Nat) (req : Option Batch) :
     OpOut × Conn A :=
-  -- request: `_read_request` resolves a pointer request and releases it in its `finally`
-  let p : List Batch × World A :=
-    match req with
-    | none => ([], c.w)
-    | some rb =>
-        let q := put cfg c.w rb
-        let r := recv q.2 q.1
-        (dataOf r.1, if Gen.C29.requestFinallyReleases then q.2.free r.2 else q.2)
+  let p := reqPhase cfg c.w req
   match out with
   | .error e => (⟨logs.map Ev.log ++ [errEv e], p.1⟩, { c with w := p.2 })
-  | .ok v =>
-      -- `_write_result_batch` then `_read_unary_response` (release in `finally`)
-      let q := put cfg p.2 (resultBatch v)
-      match readW q.2 (inlLogs logs ++ [q.1]) with
-      | (evs, .gotData _ h _) =>
-          (⟨evs.map asValue, p.1⟩, { c with w := if Gen.C29.unaryFinallyReleases then q.2.free h else q.2 })
-      | (evs, _) => (⟨evs, p.1⟩, { c with w := q.2 })
+  | .ok v => let r := respPhase cfg p.2 logs v; (⟨r.1, p.1⟩, { c with w := r.2 })
 
 def stepOut (exch : Bool) (st : Step) : StepOut := if exch then processExchangeStep st else processStep st
+
+/-- the step the next `process()` call plays; past the end of the script it calls `finish()` -/
+def headStep : List Step → Step
+  | [] => ⟨[], .finish, []⟩
+  | st :: _ => st
+
+/-- what the loop iteration produces: a coercion failure is answered with an error batch, otherwise `process()` runs -/
+def stepOutOf (exch : Bool) (rest : List Step) (coerce : Option Exn) : StepOut :=
+  match coerce with
+  | some e => .fail [.err e]
+  | none => stepOut exch (headStep rest)
+
+/-- the script advances only when `process()` ran -/
+def restAfter (rest : List Step) (coerce : Option Exn) : List Step :=
+  match coerce with
+  | some _ => rest
+  | none => rest.tail
+
+/-- `_write_batch`: a tick batch (`none`) has zero rows and is never routed -/
+def pinOf {A : Allocator} (cfg : Cfg) (w : World A) (inp : Option Batch) : WItem × World A :=
+  match inp with
+  | none => (.inl (.data ⟨0, 0, []⟩), w)
+  | some b => put cfg w b
+
+/-- the batch the client sent, as a wire-independent item -/
+def inItem (inp : Option Batch) : Item :=
+  match inp with
+  | none => .data ⟨0, 0, []⟩
+  | some b => .data b
+
+/-- the input `process()` was handed (nothing for a tick or when coercion failed) -/
+def seenOf (inp : Option Batch) (coerce : Option Exn) (resolved : Item) : List Batch :=
+  match inp, coerce with
+  | some _, none => dataOf resolved
+  | _, _ => []
 
 /-- what one iteration of the `_serve_stream` loop leaves behind -/
 structure SrvOut (A : Allocator) where
@@ -285,9 +324,8 @@ def serverStep {A : Allocator} (cfg : Cfg) (w : World A) (s : Sess) (hIn : Optio
       let hIn := if s.early && Gen.C29.releaseIdempotent then none else hIn
       let fin := fun (x : World A) => if Gen.C29.finalReleasedBeforeEos then x.free hIn else x
       -- `process()` past the end of the script calls `finish()`
-      let st : Step := match s.rest with | [] => ⟨[], .finish, []⟩ | st :: _ => st
       let r := s.rest.tail
-      match stepOut s.exch st with
+      match stepOut s.exch (headStep s.rest) with
       | .cont items => let q := putItems cfg w1 items; ⟨q.1, q.2, hIn, false, r⟩
       | .done items => let q := putItems cfg w1 items; ⟨q.1, fin q.2, none, true, r⟩
       | .fail items => ⟨items.map .inl, fin w1, none, true, r⟩
@@ -299,57 +337,52 @@ def closeSess {A : Allocator} (w : World A) (s : Sess) (carry : List WItem) : Li
   let d := drainW w1 carry
   (d.1, d.2, { s with carry := [], srvDone := true, closed := true, prevIn := none })
 
+/-- what the client does with the outcome of `_read_response` -/
+def finishRead {A : Allocator} (c : Conn A) (w : World A) (s1 : Sess) (isTick : Bool) (seen : List Batch)
+    (rd : List Ev × REnd) : OpOut × Conn A :=
+  match rd with
+  | (evs, .gotData b h rest) =>
+      -- the batch is handed to the caller, who owns its release
+      (⟨evs, seen⟩, { w := w, held := c.held ++ [⟨b, h, false⟩], sess := some { s1 with carry := rest } })
+  | (evs, .raised) =>
+      -- RpcError: the session closes itself
+      let z := closeSess w s1 []
+      (⟨evs ++ z.1, seen⟩, { c with w := z.2.1, sess := some z.2.2 })
+  | (evs, .eos) =>
+      -- StopIteration: `tick()` closes the session, `exchange()` lets it propagate
+      if isTick then
+        let z := closeSess w s1 []
+        (⟨evs ++ [.fin], seen⟩, { c with w := z.2.1, sess := some z.2.2 })
+      else (⟨evs ++ [.fin], seen⟩, { c with w := w, sess := some { s1 with carry := [] } })
+
+/-- a server that is not (or no longer) in its stream loop drains the client's input unresolved -/
+def drainInput {A : Allocator} (w : World A) : WItem → World A
+  | .ptr o _ => if Gen.C29.drainFreesPointers then w.freeOff o else w
+  | .inl _ => w
+
 /-- `StreamSession.tick` (`inp = none`) / `exchange` (`inp = some b`) against `_serve_stream` -/
 def sendOp {A : Allocator} (cfg : Cfg) (c : Conn A) (s : Sess) (inp : Option Batch) (coerce : Option Exn) :
     OpOut × Conn A :=
   if s.closed then (⟨[closedErr], []⟩, c)
   else
-    -- `_write_batch`: a tick batch has zero rows and is never routed
-    let pin : WItem × World A :=
-      match inp with
-      | none => (.inl (.data ⟨0, 0, []⟩), c.w)
-      | some b => put cfg c.w b
+    let pin := pinOf cfg c.w inp
     match s.initErr with
     | some e =>
         -- the server answered the failed init with an error stream and drains the input unresolved
-        let w1 := match pin.1 with
-          | .ptr o _ => if Gen.C29.drainFreesPointers then pin.2.freeOff o else pin.2
-          | .inl _ => pin.2
-        (⟨[errEv e], []⟩, { c with w := w1, sess := some { s with carry := [], srvDone := true, closed := true } })
+        (⟨[errEv e], []⟩, { c with w := drainInput pin.2 pin.1,
+                                   sess := some { s with carry := [], srvDone := true, closed := true } })
     | none =>
       if s.srvDone then
         -- the server left its loop earlier: the input is drained unresolved; the client reads what is left
-        let w1 := match pin.1 with
-          | .ptr o _ => if Gen.C29.drainFreesPointers then pin.2.freeOff o else pin.2
-          | .inl _ => pin.2
-        match readW w1 s.carry with
-        | (evs, .gotData b h rest) =>
-            (⟨evs, []⟩, { w := w1, held := c.held ++ [⟨b, h, false⟩], sess := some { s with carry := rest } })
-        | (evs, .raised) =>
-            let z := closeSess w1 s []
-            (⟨evs ++ z.1, []⟩, { c with w := z.2.1, sess := some z.2.2 })
-        | (evs, .eos) =>
-            match inp with
-            | none => let z := closeSess w1 s []; (⟨evs ++ [.fin], []⟩, { c with w := z.2.1, sess := some z.2.2 })
-            | some _ => (⟨evs ++ [.fin], []⟩, { c with w := w1, sess := some { s with carry := [] } })
+        let w1 := drainInput pin.2 pin.1
+        finishRead c w1 s inp.isNone [] (readW w1 s.carry)
       else
         -- server: resolve the input, run one loop iteration
         let rin := recv pin.2 pin.1
         let so := serverStep cfg pin.2 s rin.2 coerce
-        let seen : List Batch := match inp, coerce with
-          | some _, none => dataOf rin.1
-          | _, _ => []
+        let seen := seenOf inp coerce rin.1
         let s1 : Sess := { s with rest := so.rest, srvDone := so.done, prevIn := so.prevIn }
-        match readW so.w (s.carry ++ so.wire) with
-        | (evs, .gotData b h rest) =>
-            (⟨evs, seen⟩, { w := so.w, held := c.held ++ [⟨b, h, false⟩], sess := some { s1 with carry := rest } })
-        | (evs, .raised) =>
-            let z := closeSess so.w s1 []
-            (⟨evs ++ z.1, seen⟩, { c with w := z.2.1, sess := some z.2.2 })
-        | (evs, .eos) =>
-            match inp with
-            | none => let z := closeSess so.w s1 []; (⟨evs ++ [.fin], seen⟩, { c with w := z.2.1, sess := some z.2.2 })
-            | some _ => (⟨evs ++ [.fin], seen⟩, { c with w := so.w, sess := some { s1 with carry := [] } })
+        finishRead c so.w s1 inp.isNone seen (readW so.w (s.carry ++ so.wire))
 
 /-- `StreamSession.close` / `cancel` -/
 def closeOp {A : Allocator} (c : Conn A) (s : Sess) : OpOut × Conn A :=
